@@ -267,8 +267,37 @@ POINTLESS = ["[t(1) for _ in range(2)]", "[0 for _ in range(2) if t(2)]", "[0 fo
              "'%s' % t(4)", "'{}'.format(t(5))", "b'' or t(6)", "(lambda v: v)(t(7))", "[t(8)][0]", "{1: t(9)}[1]", "(t(1), t(2))[1]", "t(3) if t(4) else t(5)"]
 
 
+KEPT_FOR_EFFECT = [
+    # statements that bind nothing and whose value is dropped, but that are there for what evaluating them does
+    ("next skips an element", ["g = iter([1, 2, 3])", "next(g)", "t(next(g))"]),
+    ("next with default skips an element", ["g = iter([1, 2, 3])", "next(g, None)", "t(next(g))"]),
+    ("__next__ skips an element", ["g = iter([1, 2, 3])", "g.__next__()", "t(next(g))"]),
+    ("next in a loop", ["g = iter([1, 2, 3, 4])", "for v in g:", "    next(g, None)", "    t(v)"]),
+    ("missing key probed in try", ["d = {'k': 1}", "try:", "    d['x']", "    t(1)", "except KeyError:", "    t(2)"]),
+    ("present key probed in try", ["d = {'k': 1}", "try:", "    d['k']", "    t(1)", "except KeyError:", "    t(2)"]),
+    ("division probed in try", ["z = 0", "try:", "    1 / z", "    t(1)", "except ZeroDivisionError:", "    t(2)"]),
+    ("index probed in try", ["try:", "    it[1]", "    t(1)", "except IndexError:", "    t(2)"]),
+    ("attribute probed in try", ["o = object()", "try:", "    o.missing", "    t(1)", "except AttributeError:", "    t(2)"]),
+    ("conversion probed in try", ["v = 'x'", "try:", "    int(v)", "    t(1)", "except ValueError:", "    t(2)"]),
+    ("name probed in try", ["try:", "    undefined_name_", "    t(1)", "except NameError:", "    t(2)"]),
+    ("comparison probed in try", ["try:", "    1 < 'a'", "    t(1)", "except TypeError:", "    t(2)"]),
+    ("probe in try with else and finally", ["d = {}", "try:", "    d[c1]", "except KeyError:", "    t(2)", "else:", "    t(3)", "finally:", "    t(4)"]),
+    ("dead yield after return", ["def g():", "    return", "    yield", "t(len(list(g())))"]),
+    ("dead yield under if False", ["def g():", "    if False:", "        yield", "    t(1)", "t(len(list(g())))"]),
+    ("dead yield under if 0 with a value", ["def g():", "    t(1)", "    if 0:", "        yield 5", "t(len(list(g())))"]),
+    ("dead yield from", ["def g():", "    return None", "    yield from ()", "t(len(list(g())))"]),
+    ("dead yield after raise", ["def g():", "    raise ValueError('g')", "    yield", "x = g()", "t(1)"]),
+    ("dead yield in while False", ["def g():", "    while False:", "        yield 1", "t(len(list(g())))"]),
+    ("dead yield after continue", ["def g():", "    for i in [1, 2]:", "        t(i)", "        continue", "        yield i", "t(len(list(g())))"]),
+]
+
+
 def pointless_shapes():
     shapes = []
+    for label, lines in KEPT_FOR_EFFECT:
+        g = Gen()
+        shapes.append((f"kept for effect: {label}", lines + [g.probe(), "return 'end'"]))
+        shapes.append((f"kept for effect[if]: {label}", g.compound("if", "c1", lines) + [g.probe(), "return 'end'"]))
     for i, e in enumerate(POINTLESS):
         for ctx in ("top", "if", "loop", "else"):
             g = Gen()
